@@ -461,12 +461,18 @@ impl Range {
     pub fn difference(&self, other: &Self) -> Option<Self> {
         let mut predicates = Vec::new();
 
+        // Every alternative of `other` has to be removed from what is left of
+        // each alternative of `self`, one after the other.
         for lefty in &self.0 {
+            let mut remaining = vec![lefty.clone()];
             for righty in &other.0 {
-                if let Some(mut range) = lefty.difference(righty) {
-                    predicates.append(&mut range)
-                }
+                remaining = remaining
+                    .iter()
+                    .filter_map(|piece| piece.difference(righty))
+                    .flatten()
+                    .collect();
             }
+            predicates.append(&mut remaining)
         }
 
         if predicates.is_empty() {
